@@ -4,18 +4,24 @@ use crate::util::*;
 use mcx::Bounds;
 
 pub fn scenario(tier: &str) -> (Life, Bounds) {
+    scenario_regime(tier, false)
+}
+
+pub fn scenario_regime(tier: &str, poor_debt: bool) -> (Life, Bounds) {
     let th = tier_is_thorough(tier);
     let cfg = LifeCfg {
-        name: "c05",
+        name: if poor_debt { "c05-poor-debt" } else { "c05" },
         periods: if th { 5 } else { 3 },
         devs: if th { 2 } else { 1 },
-        bases: if th { vec!["one-deadline", "two-deadlines", "one-deadline-aged", "two-deadlines-aged"] } else { vec!["one-deadline-aged", "two-deadlines"] },
+        bases: if poor_debt { vec!["one-deadline-aged-debt", "long-faulty-debt"] } else if th { vec!["one-deadline", "two-deadlines", "one-deadline-aged", "two-deadlines-aged"] } else { vec!["one-deadline-aged", "two-deadlines"] },
         oracles: Oracles { c05: true, ..Default::default() },
         sector_sets: if th { sets_all() } else { sets_small() },
         known_open: mcx::evidence::known_open("C05"),
         property: "C05",
-        poor: None,
-        money_devs: false,
+        poor: if poor_debt { Some(fvm_shared::econ::TokenAmount::from_nano(1000)) } else { None },
+        money_devs: poor_debt,
+        precommits: th,
+        horizon: None,
     };
     let b = if th {
         Bounds { max_depth: 400, wall_cap_s: 1500.0, ..Default::default() }
@@ -23,6 +29,20 @@ pub fn scenario(tier: &str) -> (Life, Bounds) {
         Bounds { max_depth: 400, wall_cap_s: 45.0, ..Default::default() }
     };
     (Life { cfg }, b)
+}
+
+/// Bursts: several deviations close together (short horizon), also from a pre-faulted base.
+pub fn scenario_burst(tier: &str) -> (Life, Bounds) {
+    let (mut l, mut b) = scenario(tier);
+    let th = tier_is_thorough(tier);
+    l.cfg.name = "c05-burst";
+    l.cfg.bases = vec!["one-deadline-aged-f12", "two-deadlines"];
+    l.cfg.devs = if th { 3 } else { 2 };
+    l.cfg.horizon = Some(if th { 10 } else { 7 });
+    l.cfg.precommits = false;
+    l.cfg.sector_sets = vec![vec![1], vec![2], vec![1, 2], vec![3]];
+    b.wall_cap_s = if th { 900.0 } else { 30.0 };
+    (l, b)
 }
 
 pub fn run(tier: &str) -> ! {
@@ -34,5 +54,10 @@ pub fn run(tier: &str) -> ! {
         "a second 'ballast' miner holds a large locked reward so that the network pledge total stays positive (see KF-1)".into(),
     ];
     run.add(mcx::explore(&scn, &b));
+    let (sb, bb) = scenario_burst(tier);
+    run.add(mcx::explore(&sb, &bb));
+    let (scn2, mut b2) = scenario_regime(tier, true);
+    b2.wall_cap_s = if tier_is_thorough(tier) { 900.0 } else { 30.0 };
+    run.add(mcx::explore(&scn2, &b2));
     run.finish()
 }
